@@ -4,7 +4,10 @@ package main
 
 import (
 	"errors"
+	"fmt"
+	"iter"
 	"strconv"
+	"strings"
 
 	"github.com/jub0bs/cors/cfgerrors"
 )
@@ -125,6 +128,99 @@ func runAll(t *etree, k int) (seen []int, panicked bool) {
 	return
 }
 
+// reentrancy: one iter.Seq value traversed again, nested inside itself, and by two pull iterators in lockstep,
+// always yields the sequence of a single fresh traversal.
+func allReentrancy(t *etree) (ok bool, detail string) {
+	err := t.build()
+	ids := func(es []error) string {
+		var sb []string
+		for _, e := range es {
+			if me, isM := e.(*cfgerrors.UnacceptableMethodError); isM {
+				sb = append(sb, me.Value)
+			} else {
+				sb = append(sb, "?")
+			}
+		}
+		return strings.Join(sb, ",")
+	}
+	var ref []error
+	for e := range cfgerrors.All(err) {
+		ref = append(ref, e)
+	}
+	want := ids(ref)
+	budget := (len(ref)+2)*(len(ref)+2) + 16
+	defer func() {
+		if e := recover(); e != nil {
+			ok, detail = false, fmt.Sprint("panic: ", e)
+		}
+	}()
+	seq := cfgerrors.All(err)
+	var again []error
+	for e := range seq {
+		again = append(again, e)
+	}
+	var third []error
+	for e := range seq {
+		third = append(third, e)
+		if len(third) == 1 {
+			break
+		}
+	}
+	var fourth []error
+	for e := range seq {
+		fourth = append(fourth, e)
+	}
+	if ids(again) != want || ids(fourth) != want {
+		return false, "re-traversal of the same sequence: " + ids(again) + " / " + ids(fourth) + " want " + want
+	}
+	for _, innerBreak := range []bool{false, true} {
+		var outer []error
+		steps := 0
+		for a := range seq {
+			outer = append(outer, a)
+			var inner []error
+			for b := range seq {
+				inner = append(inner, b)
+				steps++
+				if innerBreak || steps > budget {
+					break
+				}
+			}
+			if !innerBreak && ids(inner) != want {
+				return false, "nested traversal (inner): " + ids(inner) + " want " + want
+			}
+			if steps > budget || len(outer) > len(ref)+2 {
+				return false, "nested traversal does not terminate as a single traversal does"
+			}
+		}
+		if ids(outer) != want {
+			return false, "nested traversal (outer): " + ids(outer) + " want " + want
+		}
+	}
+	n1, s1 := iter.Pull(seq)
+	n2, s2 := iter.Pull(seq)
+	defer s1()
+	defer s2()
+	var p1, p2 []error
+	for k := 0; k <= len(ref)+2; k++ {
+		a, oka := n1()
+		b, okb := n2()
+		if oka {
+			p1 = append(p1, a)
+		}
+		if okb {
+			p2 = append(p2, b)
+		}
+		if !oka && !okb {
+			break
+		}
+	}
+	if ids(p1) != want || ids(p2) != want {
+		return false, "two pull iterators in lockstep: " + ids(p1) + " / " + ids(p2) + " want " + want
+	}
+	return true, ""
+}
+
 func famAll(o *Out, r R, tier string) {
 	maxNodes := 6
 	nrand := 300
@@ -143,6 +239,10 @@ func famAll(o *Out, r R, tier string) {
 			}
 			o.emit("all", t.kids != nil, "leaves="+strconv.Itoa(n),
 				KV("tree", t.sx()), KV("k", I(k)), KV("impl", impl), KV("panicked", Bool(p)))
+		}
+		if n <= 12 {
+			ok, detail := allReentrancy(t)
+			o.emitDirect("all-reentrancy", ok, str(t.sx())+" "+detail)
 		}
 	}
 	for n := 1; n <= maxNodes; n++ {
